@@ -13,6 +13,8 @@ from . import mergetrace as mt
 from ..fde import FDE, Obj, Opaque
 from .common import fde_guard, PRIOS
 
+from .common import Guard  # noqa: E402
+
 PROP = 'C13'
 DECIDED = [
     'R1: CallNode and BindNode evaluation are equal modulo the final expression (target(*p, **kw_p, **kw) vs partial(target, *p, **kw_p, **kw)) and pass all three groups returned by _resolve_args in that order.',
@@ -259,10 +261,12 @@ def r4(repo, run):
 
 
 def check(repo, run, tier):
-    r1(repo, run)
-    r2(repo, run)
-    r3(repo, run)
-    r4(repo, run)
+    g = Guard()
+    g(r1, repo, run)
+    g(r2, repo, run)
+    g(r3, repo, run)
+    g(r4, repo, run)
+    g.done()
 
 
 def mutants(repo):
